@@ -19,6 +19,60 @@ OPTS = {"methods": ["MS", "SS", "DC"], "intgs": ["rk"], "N_max": 3, "M_max": 3, 
         "p_freet0": 0.0, "nx_max": 2, "nu_max": 1, "p_quad": 0.0, "p_dae": 0.0, "maxdeg": 2}
 
 
+def CS_mentions_state(e):
+    return isinstance(e, list) and (e[0] in ("s", "der") or any(CS_mentions_state(a) for a in e[1:] if isinstance(a, list)))
+
+
+def pdegree(e):
+    """degree of the expression as a polynomial in the states"""
+    op = e[0]
+    if op == "c":
+        return 0
+    if op in ("s", "der"):
+        return 1
+    if op in ("+", "-"):
+        return max(pdegree(e[1]), pdegree(e[2]))
+    if op == "*":
+        return pdegree(e[1]) + pdegree(e[2])
+    if op == "neg":
+        return pdegree(e[1])
+    raise ValueError("not a polynomial constraint expression: %r" % (e,))
+
+
+def bexpr_coq(e):
+    """the case's constraint expression as a Mech/Bern.v pexpr (fail-closed)"""
+    op = e[0]
+    if op == "c":
+        return "(BC %s)" % CS.cq(Fraction(e[1], e[2]))
+    if op == "s" and e[1] == "x":
+        return "(BX %d%%nat)" % e[2]
+    if op == "der":
+        return "(BDer %d%%nat)" % e[1]
+    if op in ("+", "-", "*"):
+        return "(%s %s %s)" % ({"+": "BAdd", "-": "BSub", "*": "BMul"}[op], bexpr_coq(e[1]), bexpr_coq(e[2]))
+    if op == "neg":
+        return "(BNeg %s)" % bexpr_coq(e[1])
+    raise ValueError("not a polynomial constraint expression: %r" % (e,))
+
+
+def rockit_expr(B, ocp, e, dercache):
+    """the constraint expression on rockit's symbols; ["der", j] is ocp.inf_der(x_j)"""
+    import casadi as ca
+    op = e[0]
+    if op == "c":
+        return float(Fraction(e[1], e[2]))
+    if op == "s":
+        return B.ex(e)
+    if op == "der":
+        if e[1] not in dercache:
+            dercache[e[1]] = ocp.inf_der(B.ex(["s", "x", e[1]]))
+        return dercache[e[1]]
+    if op == "neg":
+        return -rockit_expr(B, ocp, e[1], dercache)
+    a, b = rockit_expr(B, ocp, e[1], dercache), rockit_expr(B, ocp, e[2], dercache)
+    return a + b if op == "+" else a - b if op == "-" else a * b
+
+
 def gen_case(rng):
     c = gen.gen_base(rng, OPTS)
     if c["method"]["kind"] == "DC":
@@ -31,7 +85,7 @@ def gen_case(rng):
     c["params"] = [{"rows": 1, "cols": 1, "grid": ""}]
     c["param_values"] = {"p": [jq(0)], "pc": [[] for _ in range(c["method"]["N"])], "pp": [[] for _ in range(c["method"]["N"] + 1)]}
     xs = [["s", "x", i] for i in range(nx)]
-    kind = rng.choice(["affine", "affine", "quadratic", "product", "twosided", "infder"])
+    kind = rng.choice(["affine", "affine", "quadratic", "product", "twosided", "infder", "cubic", "dermix", "poly"])
     if kind == "affine" or nx == 0:
         terms = [(dyadic_nz(rng, -2, 2, 1), i) for i in range(nx) if rng.random() < 0.8] or [(Fraction(1), 0)]
         const = dyadic(rng, -1, 1, 1)
@@ -49,15 +103,48 @@ def gen_case(rng):
     elif kind == "infder":
         # the derivative of a state polynomial in physical time
         i = rng.randrange(nx)
-        c["inf"] = {"kind": "infder", "state": i, "expr": xs[i]}
+        c["inf"] = {"kind": "infder", "state": i, "expr": xs[i], "model_expr": ["der", i]}
     elif kind == "quadratic":
         i = rng.randrange(nx)
         e = ["+", ["*", xs[i], xs[i]], ["*", gen.C(dyadic(rng, -1, 1, 1)), xs[rng.randrange(nx)]]]
         c["inf"] = {"kind": "quadratic", "expr": e}
+    elif kind == "cubic":
+        i, j, k = rng.randrange(nx), rng.randrange(nx), rng.randrange(nx)
+        e = ["+", ["*", ["*", xs[i], xs[j]], ["-", xs[k], gen.C(dyadic(rng, -1, 1, 1))]], ["*", gen.C(dyadic_nz(rng, -1, 1, 1)), xs[i]]]
+        c["inf"] = {"kind": "cubic", "expr": e, "deg": 12}
+    elif kind == "dermix":
+        # a state, its time derivative and a product with a derivative in one expression (no refined-sample oracle:
+        # inf_der symbols cannot be sampled; rows against the model only)
+        i, j = rng.randrange(nx), rng.randrange(nx)
+        e = ["+", ["*", gen.C(dyadic_nz(rng, -2, 2, 1)), ["der", i]], xs[j]]
+        if rng.random() < 0.5:
+            e = ["-", e, ["*", ["der", j], xs[i]]]
+        c["inf"] = {"kind": "dermix", "expr": e}
+    elif kind == "poly":
+        # a random polynomial expression tree of degree <= 3 in the states
+        def tree(d):
+            r = rng.random()
+            if d == 0 or r < 0.25:
+                return xs[rng.randrange(nx)] if rng.random() < 0.75 else gen.C(dyadic_nz(rng, -2, 2, 1))
+            if r < 0.5:
+                return ["+", tree(d - 1), tree(d - 1)]
+            if r < 0.7:
+                a, b = tree(d - 1), tree(d - 1)
+                # CasADi simplifies e - e to 0 at construction: rockit would see another (lower-degree) expression
+                return ["-", a, b] if a != b else ["+", a, b]
+            if r < 0.8:
+                return ["neg", tree(d - 1)]
+            return ["*", tree(d - 1), tree(d - 1)]
+        e = tree(2)
+        while not CS_mentions_state(e):
+            e = ["+", e, xs[rng.randrange(nx)]]
+        c["inf"] = {"kind": "poly", "expr": e, "deg": 4 * pdegree(e)}
     else:
         i, j = rng.randrange(nx), rng.randrange(nx)
         e = ["-", ["*", xs[i], xs[j]], xs[i]]
         c["inf"] = {"kind": "product", "expr": e}
+    # lower bounds (expr >= bound) as well as upper bounds
+    c["inf"]["lower"] = bool(c["inf"]["kind"] != "twosided" and rng.random() < 0.35)
     c["constraints"] = [{"grid": "inf", "include_first": True, "include_last": True,
                          "rels": [{"rel": "le", "lhs": c["inf"]["expr"], "rhs": ["s", "p", 0]}]}]
     gen.touch_objective(c)
@@ -78,20 +165,26 @@ def worker(args):
             B = CS.build_rockit(dict(case, constraints=[]), rockit)
             out["inputs"] = engine.impl_inputs(B, case)
             ocp = B.ocp
-            expr = B.ex(case["inf"]["expr"])
-            if case["inf"].get("wrap"):
+            inf = case["inf"]
+            lower = bool(inf.get("lower"))
+            has_der = "der" in json.dumps(inf["expr"])
+            # the sampled expression (the refined-sample oracle): inf_der symbols cannot be sampled, 'dermix'
+            # expressions are compared with the model only
+            expr = B.ex(inf["expr"]) if not has_der else B.ex(["s", "x", 0])
+            if inf.get("wrap"):
                 # a non-polynomial constraint: no Bernstein certificate exists, must be rejected
-                expr = {"sin": ca.sin, "exp": ca.exp, "inv": lambda e: 1 / (2 + e * e), "sqrt": lambda e: ca.sqrt(e * e + 1)}[case["inf"]["wrap"]](expr)
+                expr = {"sin": ca.sin, "exp": ca.exp, "inv": lambda e: 1 / (2 + e * e), "sqrt": lambda e: ca.sqrt(e * e + 1)}[inf["wrap"]](expr)
             pb = B.S["p"][0]
-            if case["inf"].get("wrap") or case["method"].get("intg") == "expl_euler" or \
+            rel = (lambda a, b: a >= b) if lower else (lambda a, b: a <= b)
+            if inf.get("wrap") or case["method"].get("intg") == "expl_euler" or \
                     (case["method"]["kind"] == "DC" and case["method"].get("degree") != 4):
                 ocp.subject_to(expr <= ocp.inf_inert(pb), grid="inf")        # must-be-rejected cases: the plain form
-            elif case["inf"]["kind"] == "twosided":
-                ocp.subject_to(B.ex(case["inf"]["lhs"]) <= B.ex(case["inf"]["rhs"]) + ocp.inf_inert(pb), grid="inf")
-            elif case["inf"]["kind"] == "infder":
-                ocp.subject_to(ocp.inf_der(expr) <= ocp.inf_inert(pb), grid="inf")
+            elif inf["kind"] == "twosided":
+                ocp.subject_to(B.ex(inf["lhs"]) <= B.ex(inf["rhs"]) + ocp.inf_inert(pb), grid="inf")
+            elif inf["kind"] == "infder":
+                ocp.subject_to(rel(ocp.inf_der(expr), ocp.inf_inert(pb)), grid="inf")
             else:
-                ocp.subject_to(expr <= ocp.inf_inert(pb), grid="inf")    # parameters must be declared inert
+                ocp.subject_to(rel(rockit_expr(B, ocp, inf["expr"], {}), ocp.inf_inert(pb)), grid="inf")    # parameters must be declared inert
             R = 30
 
             def extras(B_, c_):
@@ -111,14 +204,23 @@ def worker(args):
                 f1, g1, lb1, ub1 = ob.nlp(xs, p1)
                 r0 = nlp.normal_rows(np.array(g0).reshape(-1), np.array(lb0).reshape(-1), np.array(ub0).reshape(-1))
                 r1 = nlp.normal_rows(np.array(g1).reshape(-1), np.array(lb1).reshape(-1), np.array(ub1).reshape(-1))
-                coeffs = [h0 for (s0, i0, q0, h0), (s1, i1, q1, h1) in zip(r0, r1) if s0 == 1 and abs((h1 - h0) + 1.0) < 1e-9]
-                bstar = max(coeffs) if coeffs else None
+                if lower:
+                    # rows  bound - coefficient <= 0
+                    coeffs = [-h0 for (s0, i0, q0, h0), (s1, i1, q1, h1) in zip(r0, r1) if s0 == 1 and abs((h1 - h0) - 1.0) < 1e-9]
+                    bstar = min(coeffs) if coeffs else None
+                else:
+                    coeffs = [h0 for (s0, i0, q0, h0), (s1, i1, q1, h1) in zip(r0, r1) if s0 == 1 and abs((h1 - h0) + 1.0) < 1e-9]
+                    bstar = max(coeffs) if coeffs else None
                 fine = np.array(ob.extra_f(xs, p0)[0]).reshape(-1)
                 # independent certificate: on every integrator step the expression is a polynomial in the
                 # normalised step time; its Bernstein coefficients at the product degree are what the rows
                 # must bound (fit through the 30 refined samples of the step)
                 kind_ = case["inf"]["kind"]
                 deg = 4 if kind_ in ("affine", "infder") else case["inf"].get("deg", 8)
+                if kind_ == "dermix":
+                    res.append({"coeffs": sorted(float(v) for v in coeffs), "bstar": None if bstar is None else float(bstar),
+                                "fine_max": 0.0, "fine_min": 0.0, "no_oracle": True})
+                    continue
                 tfine = np.array(ob.extra_f(xs, p0)[2]).reshape(-1)
                 nsteps = (len(fine) - 1) // R
                 bern = []
@@ -145,23 +247,34 @@ def worker(args):
 
 
 def model_rows(items, inputs, name):
-    lines = []
-    idx = []
+    """rows of the model: every case through Mech/Bern.v (bern_of: the BSpline operator algebra); affine cases
+    also through Mech/Inf.v (the linear relay).  Returns ({i: per-point coefficient lists}, {i: same, affine model})"""
+    lines, lines_aff = [], []
     for i, (case, pts) in enumerate(items):
-        if case["inf"]["kind"] != "affine" or inputs[i] is None:
+        if inputs[i] is None:
             continue
-        terms = CS.clist(["(%s, %d%%nat)" % (CS.cq(a), s) for a, s in case["inf"]["terms"]])
-        ic = "(mkIC 0%%nat %s %s (ES (SP 0%%nat)))" % (terms, CS.cq(case["inf"]["const"]))
-        lines.append("Definition c%d : ocp := %s.\n" % (i, CS.case_coq(dict(case, constraints=[]), inputs[i])))
-        lines.append("Eval vm_compute in (%d%%nat, map (run_inf_float c%d [%s]) %s).\n" % (
-            i, i, ic, CS.clist([CS.point_coq(p) for p in pts])))
-        idx.append(i)
-    if not lines:
-        return {}
-    bodies = ["".join(lines[i:i + 60]) for i in range(0, len(lines), 60)]
-    hdr = coqrun.HEADER + "From RV Require Import Mech.Inf.\n"
-    res = coqrun.run_shards(name, bodies, header=hdr)
-    return {i: v for sh in res for i, v in sh}
+        inf = case["inf"]
+        e = inf.get("model_expr", inf["expr"])
+        bc = "(mkBC 0%%nat %s %s (ES (SP 0%%nat)))" % (bexpr_coq(e), CS.cbool(bool(inf.get("lower"))))
+        lines.append("Definition c%d : ocp := %s.\n" % (i, CS.case_coq(dict(case, constraints=[]), inputs[i])) +
+                     "Eval vm_compute in (%d%%nat, map (run_infp_float c%d [%s]) %s).\n" % (
+                         i, i, bc, CS.clist([CS.point_coq(p) for p in pts])))
+        if inf["kind"] == "affine" and not inf.get("lower"):
+            terms = CS.clist(["(%s, %d%%nat)" % (CS.cq(a), s) for a, s in inf["terms"]])
+            ic = "(mkIC 0%%nat %s %s (ES (SP 0%%nat)))" % (terms, CS.cq(inf["const"]))
+            lines_aff.append("Definition c%d : ocp := %s.\n" % (i, CS.case_coq(dict(case, constraints=[]), inputs[i])) +
+                             "Eval vm_compute in (%d%%nat, map (run_inf_float c%d [%s]) %s).\n" % (
+                                 i, i, ic, CS.clist([CS.point_coq(p) for p in pts])))
+    hdr = coqrun.HEADER + "From RV Require Import Mech.Inf Mech.Bern.\n"
+    out = []
+    for ls, nm in ((lines, name), (lines_aff, name + "a")):
+        if not ls:
+            out.append({})
+            continue
+        bodies = ["".join(ls[i:i + 40]) for i in range(0, len(ls), 40)]
+        res = coqrun.run_shards(nm, bodies, header=hdr)
+        out.append({i: v for sh in res for i, v in sh})
+    return out[0], out[1]
 
 
 def run(tier="quick", seed=0, jobs=16):
@@ -173,7 +286,7 @@ def run(tier="quick", seed=0, jobs=16):
         items.append((c, [gen.gen_point(rng, c) for _ in range(2)]))
     with mp.get_context("fork").Pool(min(jobs, len(items))) as pool:
         rr = pool.map(worker, items, chunksize=1)
-    mv = model_rows(items, [r.get("inputs") for r in rr], "C15")
+    mv, mva = model_rows(items, [r.get("inputs") for r in rr], "C15")
     dis, nontriv, dist = [], set(), {}
     for i, ((case, pts), r) in enumerate(zip(items, rr)):
         m = case["method"]
@@ -189,11 +302,13 @@ def run(tier="quick", seed=0, jobs=16):
                     break
                 if abs(rp["bstar"]) > engine.BIG or not math.isfinite(rp["fine_max"]):
                     continue
-                tol = 1e-8 * (1 + abs(rp["bstar"]) + abs(rp["fine_max"]))
-                if case["inf"]["kind"] != "infder" and rp["fine_max"] > rp["bstar"] + tol:
+                lower = bool(case["inf"].get("lower"))
+                ext = rp["fine_min"] if lower else rp["fine_max"]
+                tol = 1e-8 * (1 + abs(rp["bstar"]) + abs(ext))
+                if case["inf"]["kind"] not in ("infder", "dermix") and ((ext < rp["bstar"] - tol) if lower else (ext > rp["bstar"] + tol)):
                     d = [{"what": "the generated rows hold (tightly) at this decision point, yet the refined sample of the "
-                                  "constrained expression exceeds the bound between grid points",
-                          "bound": rp["bstar"], "max_of_refined_sample": rp["fine_max"], "point": p}]
+                                  "constrained expression crosses the bound between grid points",
+                          "bound": rp["bstar"], "extreme_of_refined_sample": ext, "lower_bound": lower, "point": p}]
                     break
                 if case["inf"]["kind"] != "affine" and "bern" in rp:
                     bc = rp["bern"]
@@ -204,14 +319,20 @@ def run(tier="quick", seed=0, jobs=16):
                                       "constrained expression's step polynomials", "n_rockit": len(rp["coeffs"]), "n_expected": len(bc),
                               "rockit": rp["coeffs"][:9], "expected": bc[:9]}]
                         break
-                if i in mv:
-                    mc = sorted(v[2] for v in mv[i][p])
-                    if any((not math.isfinite(v)) or abs(v) > engine.BIG for v in mc + rp["coeffs"]):
+                for mvx, label in ((mv, "Mech/Bern.v (BSpline operator algebra)"), (mva, "Mech/Inf.v (affine relay)")):
+                    if i not in mvx:
                         continue
-                    if len(mc) != len(rp["coeffs"]) or not all(engine.close(a, b, rtol=1e-8, scale=abs(b)) for a, b in zip(rp["coeffs"], mc)):
-                        d = [{"what": "rows of the affine grid='inf' constraint differ from the Bernstein coefficients of the model",
-                              "rockit": rp["coeffs"][:10], "model": mc[:10]}]
+                    # model rows are  coefficient - bound  (upper) or  bound - coefficient  (lower) with bound = 0
+                    mc = sorted((-v[2] if lower else v[2]) for v in mvx[i][p])
+                    if any((not math.isfinite(v)) or abs(v) > 1e6 for v in mc + rp["coeffs"]):
+                        continue
+                    big = max([abs(v) for v in mc] + [1e-300])
+                    if len(mc) != len(rp["coeffs"]) or not all(engine.close(a, b, rtol=1e-7, scale=abs(b) + 1e-2 * big) for a, b in zip(rp["coeffs"], mc)):
+                        d = [{"what": "rows of the grid='inf' constraint differ from the Bernstein coefficients of the model " + label,
+                              "n_rockit": len(rp["coeffs"]), "n_model": len(mc), "rockit": rp["coeffs"][:13], "model": mc[:13]}]
                         break
+                if d:
+                    break
         if d:
             dis.append({"property": "C15", "what": d, "case": case, "points": pts, "finding_key": None})
         else:
